@@ -19,7 +19,12 @@ Ties (all compared inside Coq by vm_compute, model = coq/theories/Util.v):
     kernel slice, the multiset of exported 'PT Active' counters and the csv the same run wrote.  Next to the shared
     scenarios a stream of kernel CHAINS (gen_chain: Exec slices exactly back to back, TS3 == TS4 of the predecessor,
     so that the closing sample of one kernel and the opening sample of the next share a timestamp), also under
-    changed counter selections (-C).
+    changed counter selections (-C).  Option x profile: 40 % of the end-to-end runs select the stage profile
+    explicitly (--tb = shipped torch_minimal + TensorBoard exporter, -P <each shipped profile> by name or by path,
+    --tb -P <profile>), combined with the other option sets.
+  * names as data (all streams): kernel names of the log and of the trace are drawn from the whole documented row
+    class (letters, digits, '_', '-': leading underscore / digit / dash, all digits, doubled / trailing dashes) and
+    include names that differ only in case (XPOOL, case_variant); category names likewise (XCATS).
   * off-grid (supporting, ORACLE ONLY - no Coq comparison): 560:800 / 1000:1100 MHz style frequencies and decimal
     times; pt_active / Percent up to relative 1e-12, csv sums up to relative 1e-9, Ideal_Cyc exact, row order not
     checked.
@@ -127,6 +132,34 @@ KPOOL = ["add_11", "convolution_1", "convolution_2", "relu_3", "addmm_MatMul", "
          "max_pool2d_with_indices", "convolution", "addmm_1_MatMul-BMM_1", "view-VirtualReshape-Output-LxRelayout",
          "mul", "sub", "k_0", "K-9_x"]
 CATS = ["Conv_fp16", "Broadcast", "Pooling", "Bmm_fp16", "Scalar", "StcdpLx", "ConvOs1_fp16", "StcdpHbm", "other"]
+# NAMES AS DATA: a kernel name of the table is any word over letters, digits, '_' and '-' (the documented row format:
+# <name>[-opCat<category>|-NA] <cycles>).  Torch-style names with a leading underscore, names with a leading digit or
+# dash, all-digit names, inner / doubled / trailing dashes, and names that differ from another one only in case
+# (a different kernel: its own cycles and category; an event whose name differs in case from a listed one is unlisted).
+XPOOL = ["_softmax", "_to_copy", "_unsafe_view_2", "__x", "_", "2d_pool", "3x3_conv_1", "0", "42", "7up-BMM_2",
+         "-lead", "-x_1", "-", "a--b", "a-b-c_3", "trailing-", "trailing_", "Add", "ADD", "Mean", "MEAN", "total",
+         "TOTAL", "Add_11", "Relu_3", "K_0", "k-9_X"]
+XCATS = ["conv_fp16", "Other", "_internal", "2d", "Fused-Op_1"]
+
+
+def case_variant(rng, name):
+    """a name that differs from `name` only in the case of its letters (None when there is no letter)"""
+    vs = [v for v in (name.upper(), name.lower(), name.swapcase(), name.capitalize(), name.title()) if v != name]
+    return rng.choice(sorted(set(vs))) if vs else None
+
+
+def exotic_pool(rng, pool):
+    """widen a pool of table names by names from XPOOL and by case variants of names already in it"""
+    pool = list(pool)
+    for _ in range(rng.choice([1, 1, 2, 3])):
+        r = rng.random()
+        if r < 0.65 or not pool:
+            x = rng.choice(XPOOL)
+        else:
+            x = case_variant(rng, rng.choice(pool))
+        if x and x not in pool:
+            pool.insert(rng.randrange(len(pool) + 1), x)
+    return pool
 
 
 def _quiet():
@@ -175,8 +208,11 @@ def log_text(items):
 def gen_pieces(rng, edge):
     r = rng.random()
     if not edge or r < 0.6:
-        if rng.random() < 0.1:
+        u = rng.random()
+        if u < 0.1:
             return ["-NA", ""]
+        if u < 0.18:
+            return ["-opCat", rng.choice(XCATS)]          # category names are data too (case, leading '_' / digit)
         return ["-opCat", rng.choice(CATS)]
     if r < 0.7:
         return []                                   # no category at all -> accounted under 'Total' (quirk)
@@ -199,7 +235,11 @@ def gen_row(rng, base, edge, zero_p=0.25):
 
 def gen_log(rng, edge=False, all_zero=False, pool=None):
     """single-table log: items (classification, = the model's input) in line order"""
-    pool = list(pool or rng.sample(KPOOL, rng.randrange(1, 8)))
+    if pool is None:
+        pool = rng.sample(KPOOL, rng.randrange(1, 8))
+        if rng.random() < 0.45:
+            pool = exotic_pool(rng, pool)
+    pool = list(pool)
     items = []
 
     def noise(n, inside):
@@ -209,7 +249,7 @@ def gen_log(rng, edge=False, all_zero=False, pool=None):
             if r < 0.5:
                 out.append(("junk", rng.randrange(len(JUNK))))
             elif r < 0.65:
-                out.append(gen_row(rng, rng.choice(KPOOL), edge))      # outside the table: must be ignored
+                out.append(gen_row(rng, rng.choice(KPOOL + XPOOL), edge))      # outside the table: must be ignored
             elif r < 0.75:
                 out.append(("clock",))
             elif r < 0.9 and not inside:
@@ -288,7 +328,14 @@ def gen_events(rng, items, edge=False, stats=True, n=None):
         pid = rng.randrange(npid)
         r = rng.random()
         if r < 0.75 or not names:
-            base = rng.choice(names) if names and rng.random() < 0.85 else rng.choice(KPOOL + ["unlisted_3"])
+            u = rng.random()
+            if names and u < 0.82:
+                base = rng.choice(names)
+            elif names and u < 0.88:
+                # differs from a listed name only in case: another kernel (listed only if the log lists it as well)
+                base = case_variant(rng, rng.choice(names)) or "unlisted_3"
+            else:
+                base = rng.choice(KPOOL + XPOOL + ["unlisted_3", "_unlisted", "9unlisted"])
             cyc = truth[0].get(base + " " + CE, 0) if truth else 0
             rr = rng.random()
             if cyc and rr < 0.15:
@@ -790,6 +837,24 @@ def failure_record(mode, case, f):
 E2E_OPTS = [[], [], ["--disable_tb"], ["--keep_names"], ["-M"], ["--drop_globals"], ["--keep_prep"], ["-O", "tid"],
             ["-t"], ["-t"], ["-t", "--disable_tb"], ["-F", "XC"], ["-F", "XCM"], ["--flow"], ["--power-stats"]]
 
+# option x profile: --tb selects the shipped 'torch_minimal' stage profile (and the TensorBoard exporter), -P names a
+# stage profile explicitly (bare name of a shipped one, or a path: '@profiles/' stands for the profiles directory of
+# the tree under test).  The property's claims do not depend on which shipped profile runs the two utilization stages.
+PROFILE_SEL = [["--tb"], ["--tb"], ["--tb"], ["-P", "torch_minimal.json"], ["-P", "default.json"],
+               ["-P", "everything.json"], ["-P", "@profiles/torch_minimal.json"], ["-P", "@profiles/everything.json"],
+               ["--tb", "-P", "default.json"], ["--tb", "-P", "everything.json"], ["--tb", "-P", "torch_minimal.json"]]
+
+
+def with_profile(rng, opts, p=0.4):
+    if rng.random() < p:
+        return list(rng.choice(PROFILE_SEL)) + list(opts)
+    return list(opts)
+
+
+def resolve_opts(opts):
+    d = os.path.join(coqrun.REPO, "src", "aiu_trace_analyzer", "profiles") + os.sep
+    return [o.replace("@profiles/", d, 1) if isinstance(o, str) and o.startswith("@profiles/") else o for o in opts]
+
 
 def readback_items(path):
     """classification of the lines written by scenario.compiler_log (its format is fixed: name-opCatX <cycles>)"""
@@ -814,9 +879,27 @@ def gen_e2e(rng, workdir):
     os.makedirs(workdir)
     s = scenario.gen_scenario(rng, ranks=rng.choice([1, 1, 2, 3]), kernels=rng.randrange(2, 10),
                               host=rng.randrange(0, 3), zero_dur=False)
-    inp = scenario.write(s, os.path.join(workdir, "in"))
     logp = os.path.join(workdir, "compiler.log")
     names = sorted({t["name"].rsplit(" " + CE, 1)[0] for t in s.truth.values() if t["kind"] == CE})
+    if names and rng.random() < 0.4:
+        # names as data: some kernels of the scenario get a name from the wider class (all their events, every lane)
+        ren = {}
+        for n in rng.sample(names, min(len(names), rng.choice([1, 1, 2]))):
+            x = rng.choice(XPOOL) if rng.random() < 0.7 else case_variant(rng, n)
+            if x and x not in names and x not in ren.values():
+                ren[n] = x
+        for evs in s.files.values():
+            for e in evs:
+                for old, new in ren.items():
+                    if e.get("name", "").startswith(old + " ") or e.get("name", "").startswith(old + "-Other"):
+                        e["name"] = new + e["name"][len(old):]
+                        break
+        for t in s.truth.values():
+            for old, new in ren.items():
+                if t["name"].startswith(old + " ") or t["name"].startswith(old + "-Other"):
+                    t["name"] = new + t["name"][len(old):]
+                    break
+        names = sorted({t["name"].rsplit(" " + CE, 1)[0] for t in s.truth.values() if t["kind"] == CE})
     r = rng.random()
     if r < 0.4:
         force = rng.choice([None, None, None, "all_zero", "empty"])
@@ -829,7 +912,7 @@ def gen_e2e(rng, workdir):
         text = log_text(items)
         open(logp, "w").write(text)
     core = rng.choice(CORES)
-    opts = rng.choice(E2E_OPTS)
+    opts = with_profile(rng, rng.choice(E2E_OPTS))
     return {"files": {fn: evs for fn, evs in s.files.items()}, "freq": s.freq, "core": core, "opts": opts,
             "items": items, "text": text, "summary": s.summary()}
 
@@ -850,6 +933,8 @@ def gen_chain(rng):
     core = rng.choice(CORES)
     R = rng.choice([1, 1, 1, 2, 3])
     names = rng.sample(scenario.KERNELS, rng.randrange(2, 6))
+    if rng.random() < 0.5:
+        names = exotic_pool(rng, names)          # names as data: leading '_' / digit / dash, case-only differences
     tabled = [n for n in names if rng.random() < 0.85] or names[:1]
     items = gen_log(rng, edge=False, pool=tabled + rng.sample(KPOOL, rng.randrange(0, 2)))
     truth = listed(items)
@@ -905,7 +990,7 @@ def gen_chain(rng):
             else:
                 out.append(dict(e, ph="X", dur=t1 - t0))
         files[f"rank{r}_job0.json"] = out
-    return {"files": files, "freq": float(f), "core": core, "opts": rng.choice(CHAIN_OPTS), "items": items,
+    return {"files": files, "freq": float(f), "core": core, "opts": with_profile(rng, rng.choice(CHAIN_OPTS)), "items": items,
             "text": log_text(items), "summary": {"ranks": R, "slices": nsl, "chain": True}}
 
 
@@ -922,7 +1007,7 @@ def run_e2e(ec, workdir):
     logp = os.path.join(workdir, "compiler.log")
     open(logp, "w").write(ec["text"])
     out = os.path.join(workdir, "out.json")
-    argv = ["-i", ",".join(paths), "-o", out, "-c", logp, "--freq", f"{ec['freq']}:{ec['core']}"] + list(ec["opts"])
+    argv = ["-i", ",".join(paths), "-o", out, "-c", logp, "--freq", f"{ec['freq']}:{ec['core']}"] + resolve_opts(ec["opts"])
     r = e2e.run_inproc(argv, out, quiet=True)
     gc.collect()
     if not r.ok() or r.events is None:
